@@ -65,10 +65,8 @@ def gen_program(rng, tags):
 
 def gen_times(rng, forest, t0, scale, zero_bias):
     gaps = (0, 0, 1, 2, 5, 50, 333) if zero_bias else (1, 2, 3, 5, 50, 333, 1000)
-    if scale >= 10 ** 9:
-        # keep every printed figure below 24 minutes: above that __print_time_unit divides minutes by
-        # 24 to get "hours" (35 min is printed as 1.011 h) - reported as a finding, kept out of the generator
-        gaps = (0, 1, 2, 5, 20)
+    if scale >= 6 * 10 ** 10:
+        gaps = (0, 1, 2, 5, 20, 47)          # minutes: figures up to a few hundred hours (below the 999 h cap)
     clock = [t0]
 
     def go(c):
@@ -112,6 +110,36 @@ def truth_of_prefix(recs):
     return done, opened
 
 
+FAKE = 1 << 40
+
+
+def truth_of_suffix(recs, ti):
+    """data that starts at depth > 0 (fork child, first buffers lost): the frames open at the first record are
+    inherited - they count from the first record's time, are named by their EXIT record (or <0> when they never
+    exit) and are never "recursive" (their address is unknown to the code).  In the ground truth each gets a
+    private address FAKE + ... ; returns (done, opened, {private address: real address or 0})"""
+    ty0, d0, _, t_first = recs[0]
+    k = d0 + (1 if ty0 == EXIT else 0)
+    root = {"kids": []}
+    stack = [root]
+    fakes = {}
+    for lvl in range(k):
+        fa = FAKE + ti * 2048 + lvl
+        fakes[fa] = 0
+        stack.append({"a": fa, "t0": t_first, "kids": []})
+    for ty, d, a, t in recs:
+        if ty == ENTRY:
+            stack.append({"a": a, "t0": t, "kids": []})
+        else:
+            fr = stack.pop()
+            if fr["a"] in fakes:
+                fakes[fr["a"]] = a
+            stack[-1]["kids"].append([fr["a"], fr["t0"], t, fr["kids"]])
+    done = root["kids"]
+    opened = [(fr["a"], fr["t0"], fr["kids"]) for fr in stack[1:]]
+    return done, opened, fakes
+
+
 def has_recursion(forest, fns, mutual=False):
     def go(c, anc):
         a = fns[c.k].addr
@@ -130,14 +158,14 @@ def gen_case(ctx, idx, program=None, kind=None):
         syms, fns = program[0], [Fn(a, n) for a, n in program[1]]
     ntask = rng.choice([1, 1, 2, 2, 3, 4])
     kind = kind or rng.choice(["forest"] * 6 + ["lost", "lost", "suffix", "extra-exit", "overflow"])
-    scale = rng.choice([1] * 8 + [1000, 10 ** 6, 10 ** 9])
+    scale = rng.choice([1] * 8 + [1000, 10 ** 6, 10 ** 9, 6 * 10 ** 10])
     big = ctx.thorough() and rng.random() < 0.1
     max_stack = 1024
     if kind == "overflow":
         max_stack = rng.randrange(1, 4)
     tasks = []
     for ti in range(ntask):
-        small = scale >= 10 ** 9
+        small = scale >= 6 * 10 ** 10
         ncalls = rng.randrange(1, 9 if small else (60 if big else 22))
         forest = gen_shape(rng, len(fns), ncalls, rng.randrange(1, 7), wide=rng.choice([2, 3, 5]))
         gen_times(rng, forest, 1000 + rng.randrange(0, 400) * scale, scale, rng.random() < 0.5)
@@ -159,7 +187,9 @@ def gen_case(ctx, idx, program=None, kind=None):
         elif kind == "lost":
             # LOST records as libmcount writes them (time 0, addr = number lost), a chunk of the
             # following records is missing
-            for _ in range(rng.randrange(1, 3)):
+            # exactly one marker per task: a second LOST after records were dropped is the class of the known
+            # finding lost-after-inherited-wrap (the stack then "starts at depth > 0"); its witness is run separately
+            for _ in range(1):
                 p = rng.randrange(0, len(recs) + 1)
                 drop = rng.randrange(0, 4)
                 lost = (LOST, 0, max(drop, 1), 0 if rng.random() < 0.8 else (recs[min(p, len(recs) - 1)][3]))
@@ -173,6 +203,9 @@ def gen_case(ctx, idx, program=None, kind=None):
                 tags.append("starts-at-depth>0" if recs[0][1] > 0 or recs[0][0] == EXIT else "suffix-depth0")
                 if recs[0][0] == EXIT:
                     tags.append("starts-with-exit")
+                truth = truth_of_suffix(recs, ti)
+                if any(v == 0 for v in truth[2].values()):
+                    tags.append("inherited-frame-never-exits")
         elif kind == "extra-exit":
             t = recs[-1][3] + 7 * scale
             d, _ = truth_of_prefix(recs)
@@ -187,7 +220,7 @@ def gen_case(ctx, idx, program=None, kind=None):
     if ntask > 1:
         tags.append("tasks>1")
     if scale > 1:
-        tags.append("scale-1e%d" % len(str(scale)[1:]))
+        tags.append("scale-minutes" if scale >= 6 * 10 ** 10 else "scale-1e%d" % len(str(scale)[1:]))
     return {"idx": idx, "kind": kind, "max_stack": max_stack, "syms": syms, "fns": [(f.addr, f.name) for f in fns],
             "tasks": tasks, "tags": sorted(set(tags))}
 
@@ -213,12 +246,27 @@ CORPUS = [
     {"kind": "suffix", "max_stack": 1024, "tags": ["corpus:fork-child"],
      "syms": [(0x1000, 0x80, "T", "main"), (0x1100, 0x80, "T", "work"), (0x1200, 0x80, "T", "fork")],
      "fns": [(BASE + 0x1000, "main"), (BASE + 0x1100, "work"), (BASE + 0x1200, "fork")],
-     "tasks": [{"tid": 100, "recs": [(ENTRY, 0, BASE + 0x1000, 1000), (ENTRY, 1, BASE + 0x1100, 1100),
-                                     (ENTRY, 2, BASE + 0x1200, 1200), (EXIT, 2, BASE + 0x1200, 1300),
-                                     (EXIT, 1, BASE + 0x1100, 1400), (EXIT, 0, BASE + 0x1000, 1500)]},
-               {"tid": 101, "recs": [(EXIT, 2, BASE + 0x1200, 1310), (EXIT, 1, BASE + 0x1100, 2310),
-                                     (EXIT, 0, BASE + 0x1000, 3310)]}]},
+     "tasks": [{"tid": 100, "suffix_truth": True,
+                "recs": [(ENTRY, 0, BASE + 0x1000, 1000), (ENTRY, 1, BASE + 0x1100, 1100),
+                         (ENTRY, 2, BASE + 0x1200, 1200), (EXIT, 2, BASE + 0x1200, 1300),
+                         (EXIT, 1, BASE + 0x1100, 1400), (EXIT, 0, BASE + 0x1000, 1500)]},
+               {"tid": 101, "suffix_truth": True,
+                "recs": [(EXIT, 2, BASE + 0x1200, 1310), (EXIT, 1, BASE + 0x1100, 2310),
+                         (EXIT, 0, BASE + 0x1000, 3310)]}]},
+    # 30 and 90 minutes (fixed: hours-are-minutes-over-24)
+    {"kind": "forest", "max_stack": 1024, "tags": ["corpus:hours"],
+     "syms": [(0x1000, 0x80, "T", "main"), (0x1100, 0x80, "T", "work")],
+     "fns": [(BASE + 0x1000, "main"), (BASE + 0x1100, "work")],
+     "tasks": [{"tid": 100, "forest": [[0, 1000, 3000 + 90 * 60 * 10 ** 9, [[1, 2000, 2000 + 30 * 60 * 10 ** 9, []]]]]}]},
+    # the witness of the known finding lost-after-inherited-wrap (compared with the model like any other case;
+    # the finding itself is reported through ctx.known_finding)
+    {"kind": "lost", "max_stack": 1024, "tags": ["corpus:lost-after-inherited-wrap"],
+     "syms": [(0x1000, 0x80, "T", "main"), (0x1100, 0x80, "T", "a"), (0x1200, 0x80, "T", "b")],
+     "fns": [(BASE + 0x1000, "main"), (BASE + 0x1100, "a"), (BASE + 0x1200, "b")],
+     "tasks": [{"tid": 100, "recs": [(LOST, 0, 1, 0), (EXIT, 2, BASE + 0x1200, 1300), (EXIT, 1, BASE + 0x1100, 1400),
+                                     (ENTRY, 1, BASE + 0x1100, 1500), (LOST, 0, 1, 0), (EXIT, 0, BASE + 0x1000, 1900)]}]},
 ]
+WITNESS_LOST_WRAP = "corpus:lost-after-inherited-wrap"
 
 
 def corpus_cases():
@@ -228,7 +276,8 @@ def corpus_cases():
         tasks = []
         for t in c["tasks"]:
             if "recs" in t:
-                tasks.append({"tid": t["tid"], "recs": list(t["recs"]), "truth": None})
+                tr = truth_of_suffix(list(t["recs"]), len(tasks)) if t.get("suffix_truth") else None
+                tasks.append({"tid": t["tid"], "recs": list(t["recs"]), "truth": tr})
                 continue
             recs = flat_recs([Call.from_json(j) for j in t["forest"]], fns)
             if t.get("cut"):
@@ -256,6 +305,10 @@ def name_table(case):
                 return n
         return "<%x>" % a
     amap = {a: nm(a) for a in addrs}
+    for t in case["tasks"]:
+        if t.get("truth") and len(t["truth"]) > 2:
+            for fa, real in t["truth"][2].items():
+                amap[fa] = nm(real)
     allnames = sorted(set(amap.values()) | set(s[3] for s in case["syms"]), key=lambda s: s.encode())
     num = {n: i + 1 for i, n in enumerate(allnames)}
     return {a: num[n] for a, n in amap.items()}, num, amap
@@ -363,11 +416,16 @@ def q_truth(case):
         return "None"
     tts = []
     for t in case["tasks"]:
-        done, opened = t["truth"]
+        done, opened = t["truth"][0], t["truth"][1]
         tts.append("mktt %s %s" % (q_list([q_call(c) for c in done]),
                                    q_list(["mkof %d %d %s" % (a, t0, q_list([q_call(k) for k in kids]))
                                            for a, t0, kids in opened])))
     return "Some " + q_list(tts)
+
+
+def truth_is_flat(case):
+    """the ground truth flattens to exactly the records written (no inherited frames)"""
+    return all(t["truth"] is not None and (len(t["truth"]) < 3 or not t["truth"][2]) for t in case["tasks"])
 
 
 def q_case(case, amap):
@@ -406,7 +464,7 @@ Definition nd nm call ts tr ta tmi tma ss sr sa smi sma :=
   mknode nm call (mkstat ts tr tmi tma ta) (mkstat ss sr smi sma sa).
 Record tcase := mk { tc : case; i_rows : list (list (N * N * N * bool)); i_tbl : list node;
                      i_sorts : list (list key * list N); i_truth : option (list ttrace);
-                     i_order : list nat; i_grows : list (N * N * N * bool) }.
+                     i_order : list nat; i_grows : list (N * N * N * bool); i_flat : bool }.
 (* the merged stream: i_order names the task whose next record is read (min time, lowest index on ties) *)
 Fixpoint weave (order : list nat) (tasks : list (list rec)) : list (nat * rec) :=
   match order with
@@ -427,7 +485,7 @@ Definition sorts_ok t := forallb (fun p => list_eqb (map n_name (sort_nodes (fst
 Definition rec_eqb (a b : rec) := Bool.eqb (is_exit a) (is_exit b) && Bool.eqb (is_lost a) (is_lost b)
   && (r_depth a =? r_depth b) && (r_addr a =? r_addr b) && (r_time a =? r_time b).
 Fixpoint recs_eqb (a b : list rec) := match a, b with [], [] => true | x :: a', y :: b' => rec_eqb x y && recs_eqb a' b' | _, _ => false end.
-Definition truth_ok t := match i_truth t with
+Definition truth_ok t := negb (i_flat t) || match i_truth t with
                          | Some tts => forallb (fun p => recs_eqb (trace_recs (fst p)) (snd p)) (combine tts (c_tasks (tc t)))
                                        && Nat.eqb (length tts) (length (c_tasks (tc t)))
                          | None => true end.
@@ -463,8 +521,9 @@ def q_tcase(case, res, amap, num):
                     for ks, order in res["sorts"]])
     grows = q_list(["(%d, %d, %d, %s)" % (num.get(n, 0), tot, slf, coq.coq_bool(rc and tot != 0))
                     for n, tot, slf, rc in res["grows"]])
-    return "mk (%s) %s %s %s (%s) %s %s" % (q_case(case, amap), q_list(rows), q_list([q_node(n, num) for n in res["nodes"]]),
-                                            sorts, q_truth(case), q_list(["%d%%nat" % i for i in merge_order(case)]), grows)
+    return "mk (%s) %s %s %s (%s) %s %s %s" % (q_case(case, amap), q_list(rows), q_list([q_node(n, num) for n in res["nodes"]]),
+                                            sorts, q_truth(case), q_list(["%d%%nat" % i for i in merge_order(case)]), grows,
+                                            coq.coq_bool(truth_is_flat(case)))
 
 
 # ---------------------------------------------------------------- end-to-end option sets
@@ -600,7 +659,9 @@ def case_json(case):
             "fns": [list(f) for f in case["fns"]], "tags": case["tags"],
             "other": case_json(case["other"]) if case.get("other") else None,
             "tasks": [{"tid": t["tid"], "recs": [list(r) for r in t["recs"]],
-                       "truth": None if t["truth"] is None else [t["truth"][0], [list(o) for o in t["truth"][1]]]}
+                       "truth": None if t["truth"] is None else
+                       [t["truth"][0], [list(o) for o in t["truth"][1]],
+                        {str(k): v for k, v in (t["truth"][2] if len(t["truth"]) > 2 else {}).items()}]}
                       for t in case["tasks"]]}
 
 
@@ -609,7 +670,9 @@ def case_from_json(j):
             "fns": [tuple(f) for f in j["fns"]], "tags": j.get("tags", []),
             "other": case_from_json(j["other"]) if j.get("other") else None,
             "tasks": [{"tid": t["tid"], "recs": [tuple(r) for r in t["recs"]],
-                       "truth": None if t["truth"] is None else (t["truth"][0], [tuple(o) for o in t["truth"][1]])}
+                       "truth": None if t["truth"] is None else
+                       (t["truth"][0], [tuple(o) for o in t["truth"][1]],
+                        {int(k): v for k, v in (t["truth"][2] if len(t["truth"]) > 2 else {}).items()})}
                       for t in j["tasks"]]}
 
 
@@ -638,11 +701,12 @@ def common_meta(ctx):
         "but not derived: theorem C08_merge_irrelevant shows the report is the same for every interleaving",
         "total-stdv/self-stdv (floating point) are not modelled or compared; sort keys *_stdv and `size` are not generated; "
         "--diff is exercised with the default policy/key only; rows of equal |difference| are compared as a set; the "
-        "sign of a printed time difference is not judged (inverted without colours: reported)",
-        "LOST markers, data starting at depth>0 (fork child), EXIT at stack 0 and max_stack overflow are compared with "
-        "the model only (no checker: the code's figures for them are refuted/reported, see Properties_C08.v)",
-        "times below 24 min per figure in generated cases (the hour unit of __print_time_unit divides minutes by 24: "
-        "reported as a finding, witness proved in Coq)",
+        "sign of a time difference is judged (minus = decrease)",
+        "LOST markers (one per task), EXIT at stack 0 and max_stack overflow are compared with the model only; data "
+        "starting at depth>0 (fork child) is judged by the checkers with inherited frames counted from the task's "
+        "first record, named by their EXIT record and never recursive; a LOST after such a start is the known finding "
+        "lost-after-inherited-wrap (dedicated witness only)",
+        "printed figures below 1000 hours (above, __print_time_unit prints 999.999)",
         "accumulated sums stay below 2^64 ns in the theorems about exact sums (the model itself wraps like uint64_t)",
     ]
 
@@ -761,12 +825,27 @@ def verdict(ctx, res, kept, ekept):
     ctx.extra["disagreements"] = nm
 
 
+def known_findings(ctx, kept):
+    """lost-after-inherited-wrap: a LOST marker after data that starts at depth > 0 wraps a duration.  The witness
+    runs on the implementation on every run; still failing = some figure of its node table is a wrapped negative
+    number (>= 2^63).  (Model side: C08_lost_after_inherited_refuted; the case is also compared with the model.)"""
+    for case in kept:
+        if WITNESS_LOST_WRAP in case["tags"]:
+            nodes = case["impl"]["nodes"]
+            wrapped = [n for n in nodes if any(x >= 1 << 63 and x != (1 << 64) - 1 for x in n[2:])]
+            ctx.known_finding("lost-after-inherited-wrap",
+                              "a LOST marker after data that starts at depth > 0 makes report wrap a duration: %s"
+                              % (wrapped[:1] or nodes),
+                              still_fails=bool(wrapped), replay={"case": case_json(case), "impl": case["impl"]})
+
+
 def run(ctx):
     common_meta(ctx)
     objdir, exe = setup(ctx)
     cases = corpus_cases() + [gen_case(ctx, i) for i in range(ctx.n(260, 2500))]
     terms, kept, eterms, ekept = explore(ctx, objdir, exe, cases, ctx.n(45, 400))
     ctx.log("explored %d cases (%d end-to-end) on the implementation" % (len(kept), len(ekept)))
+    known_findings(ctx, kept)
     # evaluate in chunks (keeps each vm_compute file moderate); the e2e cases are the first ones
     chunk = 600
     for a in range(0, max(len(terms), 1), chunk):
